@@ -181,6 +181,26 @@ Theorem coherent_reads_any_instances : forall rows cops c,
 Proof. exact coherent_reads_instances_lemma. Qed.
 Print Assumptions coherent_reads_any_instances.
 
+(* Independent worlds.  Several worlds - each its own database and its own Redis servers - live in
+   one process and share go-zero's process-wide machinery (ONE cleaner: a tick is a tick for every
+   world's pending retries; one clock), and may use the very same key strings.  A retry is bound
+   to the store its DEL failed on, so the composite system is the product of the worlds' models:
+   world j of the state after ANY composite history [h] is what j's own model reaches on j's own
+   history ([wproj j h]: its operations and the process-wide events, in order) - nothing another
+   world does (same keys, overlapping outages, its own failed invalidations) shows. *)
+Theorem worlds_are_independent : forall h ws j d, (j < length ws)%nat ->
+  nth j (wfinal ws h) d = finalm (nth j ws d) (wproj j h).
+Proof. exact worlds_independent_lemma. Qed.
+Print Assumptions worlds_are_independent.
+
+(* ... hence every world keeps the guarantee of [coherent_reads] on its own *)
+Theorem coherent_reads_in_every_world : forall rowss h j rows c d,
+  nth_error rowss j = Some rows -> NoDup (map fst rows) ->
+  all_disciplinedm (init rows) (wproj j h) = true ->
+  reads_claim c (nth j (wfinal (map init rowss) h) d).
+Proof. exact coherent_reads_worlds_lemma. Qed.
+Print Assumptions coherent_reads_in_every_world.
+
 (* Load suppression against the interleaving model of SingleFlight (C07.Model: threads are scripts
    of calls [mkOp GSF key val err] = barrier.DoEx(key, fn) whose fn - for C06: doTake's closure
    GET / database query / SETEX, at most ONE query by [one_query_per_operation] - returns
@@ -337,3 +357,19 @@ Example ex_instances :
   let s := finalm (init ex_rows) ex_cops in
   step ex_cfg2 s (OTake 1 0) = (s, mkObs (RRow 1 7 42) 0 0) /\ dirty s (KP 1) = false.
 Proof. split; [vm_compute; reflexivity|]. split; [repeat constructor|]. vm_compute. split; reflexivity. Qed.
+
+(* two worlds with the same key strings: both caches warm, both down while the row is rewritten in
+   each, recovery, one tick of the one cleaner: BOTH keys are invalidated (each world's retry is
+   its own) *)
+Definition ex_worlds : list wop :=
+  [WOp 0 ex_cfg (OTake 1 100); WOp 1 ex_cfg2 (OTake 1 604800);
+   WOp 0 ex_cfg (OCFault 1 true); WOp 1 ex_cfg2 (OCFault 1 true);
+   WOp 0 ex_cfg (OExec 1 (Some (7, 42)) [KP 1; KU 7]); WOp 1 ex_cfg2 (OExec 1 (Some (7, 43)) [KP 1; KU 7]);
+   WOp 0 ex_cfg (OCFault 1 false); WOp 1 ex_cfg2 (OCFault 1 false); WClean 1].
+Example ex_worlds_fresh :
+  let ws := wfinal [init ex_rows; init ex_rows] ex_worlds in
+  map (fun s => (lookup (clock s) (cache s) (KP 1), dirty s (KP 1), db_get 1 (db s))) ws
+  = [(None, false, Some (7, 42)); (None, false, Some (7, 43))]
+  /\ all_disciplinedm (init ex_rows) (wproj 0 ex_worlds) = true
+  /\ all_disciplinedm (init ex_rows) (wproj 1 ex_worlds) = true.
+Proof. vm_compute. repeat split. Qed.
